@@ -2,13 +2,13 @@ import Chewing.Proofs.C01Shared
 /-!
 C01, part 3: the phrase selector.  Break-point searches stay inside the buffer and inside a run of
 syllables; `PhraseSelector::init` / `init_single_word` terminate without panic (the shrinking loop stops
-at the latest at the single syllable under the cursor, which has a word) and establish the selector
-invariant `PhraseOK`.
+at the latest at the single syllable under the cursor — with or without a word for it, since the F02 / F03
+repair) and establish the selector invariant `PhraseOK`.
 -/
 namespace Chewing.C01
 open Chewing Chewing.C04 Chewing.C05
 
-variable {D L : Type} (env : Env D L) (G : D → Prop)
+variable {D L : Type} (env : Env D L) (G : D → Prop) (w : Prop)
 
 /-- how the range of a phrase selector hangs on the position `orig` it was opened at (`init` /
     `init_single_word`; `next` and the four `jump_to_*_selection_point` keep it): `orig` is a position of
@@ -53,15 +53,16 @@ structure PhraseOK (sh : Shared D L) (p : PhraseSel) : Prop where
   lt : p.begin_ < p.end_
   le : p.end_ ≤ p.com.symbols.length
   syl : AllSyl p.com p.begin_ p.end_
-  /-- the selector's own lookup strategy is an active strategy: every buffered syllable has a word under it -/
-  word : ∀ c, Sym.syl c ∈ p.com.symbols → env.hasPhrase sh.dict [c] p.strategy = true
+  /-- (strength `w`) the selector's own lookup strategy is an active strategy: every buffered syllable has a
+      word under it -/
+  word : w → ∀ c, Sym.syl c ∈ p.com.symbols → env.hasPhrase sh.dict [c] p.strategy = true
   /-- the range is anchored at the position the list was opened at -/
   anchor : Anchor p
 
 /-- invariant of an open candidate list -/
 structure SelInv (sh : Shared D L) (s : Selecting) : Prop where
   sel : match s.sel with
-    | .phrase p => PhraseOK env sh p
+    | .phrase p => PhraseOK env w sh p
     | .symbol y => SymWF y
     | .special sym => sym.isSyl = false
   /-- a list that replaces the symbol under the cursor sits on a non-syllable symbol -/
@@ -69,18 +70,18 @@ structure SelInv (sh : Shared D L) (s : Selecting) : Prop where
 
 /-- invariant attached to the editor state -/
 def StInv (sh : Shared D L) : St → Prop
-  | .selecting s => SelInv env sh s
+  | .selecting s => SelInv env w sh s
   | _ => True
 
-variable {env G}
+variable {env G w}
 
-theorem PhraseOK.congr {sh sh' : Shared D L} {p : PhraseSel} (h : PhraseOK env sh p) (hc : sh'.com.inner = sh.com.inner)
-    (hm : ∀ c s, env.hasPhrase sh.dict [c] s = true → env.hasPhrase sh'.dict [c] s = true) : PhraseOK env sh' p :=
-  ⟨h.com.trans hc.symm, h.lt, h.le, h.syl, fun c hcm => hm _ _ (h.word c hcm), h.anchor⟩
+theorem PhraseOK.congr {sh sh' : Shared D L} {p : PhraseSel} (h : PhraseOK env w sh p) (hc : sh'.com.inner = sh.com.inner)
+    (hm : ∀ c s, env.hasPhrase sh.dict [c] s = true → env.hasPhrase sh'.dict [c] s = true) : PhraseOK env w sh' p :=
+  ⟨h.com.trans hc.symm, h.lt, h.le, h.syl, fun hw c hcm => hm _ _ (h.word hw c hcm), h.anchor⟩
 
-theorem StInv.congr {sh sh' : Shared D L} {st : St} (h : StInv env sh st) (hc : sh'.com.inner = sh.com.inner)
+theorem StInv.congr {sh sh' : Shared D L} {st : St} (h : StInv env w sh st) (hc : sh'.com.inner = sh.com.inner)
     (hcur : sh'.com.cursor = sh.com.cursor)
-    (hm : ∀ c s, env.hasPhrase sh.dict [c] s = true → env.hasPhrase sh'.dict [c] s = true) : StInv env sh' st := by
+    (hm : ∀ c s, env.hasPhrase sh.dict [c] s = true → env.hasPhrase sh'.dict [c] s = true) : StInv env w sh' st := by
   cases st with
   | selecting s =>
     obtain ⟨h1, h2⟩ := h
@@ -237,13 +238,13 @@ structure SameSel (s s' : PhraseSel) : Prop where
   rwe : s.forward = false → s'.end_ = s.end_
 
 theorem initLoop_ok (d : D) : ∀ (fuel : Nat) (s : PhraseSel), s.begin_ < s.end_ → s.end_ ≤ s.com.symbols.length →
-    AllSyl s.com s.begin_ s.end_ → (∀ c, Sym.syl c ∈ s.com.symbols → env.hasPhrase d [c] s.strategy = true) →
+    AllSyl s.com s.begin_ s.end_ →
     s.end_ - s.begin_ ≤ fuel → OkAnd (SameSel s) (PhraseSel.initLoop env s d fuel) := by
   intro fuel
   induction fuel with
-  | zero => intro s h1 _ _ _ h5; omega
+  | zero => intro s h1 _ _ h5; omega
   | succ fuel ih =>
-    intro s h1 h2 h3 h4 h5
+    intro s h1 h2 h3 h5
     simp only [PhraseSel.initLoop]
     rw [if_neg (by omega), if_neg (by simp only [Composition.len]; omega), if_neg (by simp only [beq_iff_eq]; omega)]
     rw [rangeHasPhrase_ok s d (by omega) h2]
@@ -251,42 +252,32 @@ theorem initLoop_ok (d : D) : ∀ (fuel : Nat) (s : PhraseSel), s.begin_ < s.end
     | true => exact .ok ⟨rfl, rfl, rfl, rfl, Nat.le_refl _, h1, Nat.le_refl _, fun _ => rfl, fun _ => rfl⟩
     | false =>
       dsimp only
-      -- the range is longer than one syllable, otherwise it would have had a phrase
-      have hlong : s.begin_ + 1 < s.end_ := by
-        rcases Nat.lt_or_ge (s.begin_ + 1) s.end_ with hh | hh
-        · exact hh
-        · exfalso
-          have he : s.end_ = s.begin_ + 1 := by omega
-          by_cases hf : s.forward
-          · obtain ⟨k, hk⟩ := h3 s.begin_ (Nat.le_refl _) h1
-            have := rangeHasPhrase_single (env := env) s d hk (h4 k (mem_of_getElem? hk)) (by omega)
-            rw [rangeHasPhrase_ok s d (by omega) (by omega), ← he] at this
-            injection this with this
-            rw [this] at hfalse; cases hfalse
-          · obtain ⟨k, hk⟩ := h3 s.begin_ (Nat.le_refl _) h1
-            have := rangeHasPhrase_single (env := env) s d hk (h4 k (mem_of_getElem? hk)) (by omega)
-            rw [rangeHasPhrase_ok s d (by omega) (by omega), ← he] at this
-            injection this with this
-            rw [this] at hfalse; cases hfalse
+      -- a one-syllable range ends the loop (F02 / F03 repair: with or without a word for it)
+      obtain ⟨k, hk⟩ := h3 s.begin_ (Nat.le_refl _) h1
+      rw [symbol?_lt (by omega), hk]
+      simp only [Sym.isSyl, Bool.and_true, beq_iff_eq]
+      split
+      · exact .ok ⟨rfl, rfl, rfl, rfl, Nat.le_refl _, h1, Nat.le_refl _, fun _ => rfl, fun _ => rfl⟩
+      next hone =>
+      have hlong : s.begin_ + 1 < s.end_ := by omega
       split
       · next hfw =>
         obtain ⟨s', hq, hs⟩ := ih { s with end_ := s.end_ - 1 } (by show s.begin_ < s.end_ - 1; omega)
           (by show s.end_ - 1 ≤ s.com.symbols.length; omega) (fun j a b => h3 j a (by show j < s.end_; have : j < s.end_ - 1 := b; omega))
-          h4 (by show s.end_ - 1 - s.begin_ ≤ fuel; omega)
+          (by show s.end_ - 1 - s.begin_ ≤ fuel; omega)
         exact ⟨s', hq, ⟨hs.com, hs.strategy, hs.forward, hs.orig, hs.b1, hs.b2, by have := hs.b3; simp only at this; omega,
           hs.fwb, (fun hh => by rw [hh] at hfw; cases hfw)⟩⟩
       · next hfw =>
         obtain ⟨s', hq, hs⟩ := ih { s with begin_ := s.begin_ + 1 } (by show s.begin_ + 1 < s.end_; omega)
           h2 (fun j a b => h3 j (by have : s.begin_ + 1 ≤ j := a; omega) b)
-          h4 (by show s.end_ - (s.begin_ + 1) ≤ fuel; omega)
+          (by show s.end_ - (s.begin_ + 1) ≤ fuel; omega)
         exact ⟨s', hq, ⟨hs.com, hs.strategy, hs.forward, hs.orig, by have := hs.b1; simp only at this; omega, hs.b2, hs.b3,
           fun hh => absurd hh hfw, hs.rwe⟩⟩
 
 /-- **`PhraseSelector::init`** at a syllable inside the buffer: no panic, the loop terminates, and the
     selector covers a non-empty run of syllables inside the buffer -/
 theorem init_ok (forward : Bool) (strategy : Strategy) (com : Composition) (cursor : Nat) (d : D)
-    (hlt : cursor < com.symbols.length) (hsyl : ∃ k, com.symbols[cursor]? = some (Sym.syl k))
-    (hw : ∀ c, Sym.syl c ∈ com.symbols → env.hasPhrase d [c] strategy = true) :
+    (hlt : cursor < com.symbols.length) (hsyl : ∃ k, com.symbols[cursor]? = some (Sym.syl k)) :
     OkAnd (fun p => p.com = com ∧ p.strategy = strategy ∧ p.begin_ < p.end_ ∧ p.end_ ≤ com.symbols.length ∧
         AllSyl com p.begin_ p.end_ ∧ Anchor p ∧ p.forward = forward ∧ p.orig = cursor)
       (PhraseSel.init env forward strategy com cursor d) := by
@@ -300,7 +291,7 @@ theorem init_ok (forward : Bool) (strategy : Strategy) (com : Composition) (curs
     obtain ⟨n1, n2, n3, n4⟩ := nbp_spec s0 (c := cursor) (Nat.le_of_lt hlt)
     have n4 := n4 hsyl
     obtain ⟨p, hq, hs⟩ := initLoop_ok (env := env) d (com.len + 2)
-      { s0 with begin_ := cursor, end_ := s0.nextBreakPoint cursor } n4 n2 n3 hw
+      { s0 with begin_ := cursor, end_ := s0.nextBreakPoint cursor } n4 n2 n3
       (by show s0.nextBreakPoint cursor - cursor ≤ com.len + 2; simp only [Composition.len]; have : s0.nextBreakPoint cursor ≤ com.symbols.length := n2; omega)
     have hpf : p.forward = forward := hs.forward
     have hpo : p.orig = cursor := hs.orig
@@ -322,7 +313,7 @@ theorem init_ok (forward : Bool) (strategy : Strategy) (com : Composition) (curs
         subst this; exact hsyl
     obtain ⟨p, hq, hs⟩ := initLoop_ok (env := env) d (com.len + 2)
       { s0 with end_ := cursor + 1, begin_ := s0.afterPreviousBreakPoint cursor }
-      (by show s0.afterPreviousBreakPoint cursor < cursor + 1; omega) (by show cursor + 1 ≤ com.symbols.length; omega) hall hw
+      (by show s0.afterPreviousBreakPoint cursor < cursor + 1; omega) (by show cursor + 1 ≤ com.symbols.length; omega) hall
       (by show cursor + 1 - s0.afterPreviousBreakPoint cursor ≤ com.len + 2; simp only [Composition.len]; omega)
     have hpf : p.forward = forward := hs.forward
     have hpo : p.orig = cursor := hs.orig
